@@ -68,6 +68,11 @@ func TestDaemonChild(t *testing.T) {
 	if err != nil {
 		t.Fatal(err)
 	}
+	if os.Getenv("VERIF_LOG") == "" {
+		if lf, err := os.OpenFile(filepath.Join(spec.OutDir, "ui.log"), os.O_CREATE|os.O_WRONLY|os.O_TRUNC, 0644); err == nil {
+			stage.SetLogWriter(lf)
+		}
+	}
 	write := func(l journalLine) {
 		b, _ := json.Marshal(l)
 		b = append(b, '\n')
